@@ -278,7 +278,7 @@ impl Phase for Random {
         let distinct = r.chance(1, 2);
         let ast = {
             let vars = ["a", "b", "c", "x"];
-            let funs = ["f", "g", "h", "max", "len"];
+            let funs = ["f", "g", "h", "max", "len", "math::clamp", "str::nope", "ns::f", "math::len", "a::b::c"];
             let mut g = AstGen {
                 r,
                 vars: &vars,
